@@ -376,6 +376,25 @@ func (c *Ctx) linkFromForwardIterator(fn *ssa.Function, link ssa.Value) (bool, s
 			}
 		}
 		return false, "result of " + shorten(core.CalleeName(call))
+	case *ssa.Call:
+		// index form: links.Lookup(i) with i a counter that runs forward from 0 in steps of 1
+		if name, rv := methodCall(x); name == "Lookup" && rv != nil && strings.Contains(types.TypeString(rv.Type(), nil), "PBLinks") && len(x.Call.Args) >= 2 {
+			if phi, ok := core.Unconv(x.Call.Args[len(x.Call.Args)-1]).(*ssa.Phi); ok && isCounterFromNonNeg(phi) {
+				fwd := true
+				for _, e := range phi.Edges {
+					if k, isK := core.ConstInt(e); isK {
+						fwd = fwd && k == 0
+					} else if add, isAdd := e.(*ssa.BinOp); isAdd {
+						k, isK := core.ConstInt(add.Y)
+						fwd = fwd && isK && k == 1
+					}
+				}
+				if fwd {
+					return true, "the link is the i-th element of the dag-pb links list with i counting forward from 0"
+				}
+			}
+		}
+		return false, "result of " + shorten(core.CalleeName(x))
 	case *ssa.Parameter:
 		// forwarded: every caller must satisfy the rule
 		idx := -1
